@@ -99,4 +99,12 @@ PROPS = {
                       'peer-exchange record validation (accept-PX threshold, signed records) and the validation-overload gater are NOT modelled'],
         assumptions=['scores are integers in the correspondence (application-specific score with weight 1, all other score components off)'],
     ),
+    'C10': dict(
+        coq=['Props/C10', 'Run/ScoreRun'],
+        go=[dict(run='^TestVF_Score$')],
+        trusted_base=['hand-written model Model/Score.v, polymorphic in the arithmetic; the correspondence runs its binary64 instance (Coq primitive floats: the kernel\'s float operations, i.e. the host\'s IEEE 754 hardware, are trusted to agree with Go\'s float64)',
+                      'the theorems are proved for the exact-rational instance of the same definitions (no rounding); rounding is covered only by the bit-for-bit correspondence'],
+        assumptions=['at most two scored topics per parameter set in the correspondence (score() sums topics in map order and float addition is not associative)',
+                     'IP addresses are assigned by the harness through setIPs (no real connections)'],
+    ),
 }
